@@ -20,6 +20,7 @@ is the only relation needed (plus s^(2+b/γ) s^(2-b/γ) = s⁴ for the momentum)
 import EPV.Gen.Cog7D
 import EPV.Spec.Euler1D
 import EPV.Lemmas.Euler1D
+import EPV.Lemmas.HydroRobust
 import EPV.Tactics
 
 set_option linter.all false
@@ -43,9 +44,8 @@ theorem cog7_mass (p : Cog7.P) (r t : ℝ) (hr : 0 < r) (hx : 0 < p.tau ^ 2 - t 
   have hq : 0 < Real.sqrt (p.tau ^ 2 - t ^ 2) := Real.sqrt_pos.mpr hx
   have hs : 0 < r / Real.sqrt (p.tau ^ 2 - t ^ 2) := div_pos hr hq
   unfold massRes dr dt
-  rw [(Cog7.L1.density_hasDerivAt_t p r t hx.ne' hq.ne' hs hW).deriv,
-    (Cog7.L1.density_hasDerivAt_r p r t hs hW hr).deriv,
-    (Cog7.L1.velocity_hasDerivAt_r p r t).deriv]
+  epv_hydro_rw_derivs [Cog7.L1.density_hasDerivAt_t p r t, Cog7.L1.density_hasDerivAt_r p r t,
+    Cog7.L1.velocity_hasDerivAt_r p r t]
   simp only [epv_deriv, epv_leaf]
   unfold cog7_W cog7_gamma at hW
   have hxx : p.tau ^ 2 - t ^ 2 = Real.sqrt (p.tau ^ 2 - t ^ 2) * Real.sqrt (p.tau ^ 2 - t ^ 2) :=
@@ -73,8 +73,8 @@ theorem cog7_momentum (p : Cog7.P) (r t : ℝ) (hr : 0 < r) (hx : 0 < p.tau ^ 2 
   have hq : 0 < Real.sqrt (p.tau ^ 2 - t ^ 2) := Real.sqrt_pos.mpr hx
   have hs : 0 < r / Real.sqrt (p.tau ^ 2 - t ^ 2) := div_pos hr hq
   unfold momResT dr dt
-  rw [(Cog7.L1.velocity_hasDerivAt_t p r t hx.ne').deriv, (Cog7.L1.velocity_hasDerivAt_r p r t).deriv,
-    (Cog7.L1.density_hasDerivAt_r p r t hs hW hr).deriv, (Cog7.L1.temperature_hasDerivAt_r p r t hr.ne' hs).deriv]
+  epv_hydro_rw_derivs [Cog7.L1.velocity_hasDerivAt_t p r t, Cog7.L1.velocity_hasDerivAt_r p r t,
+    Cog7.L1.density_hasDerivAt_r p r t, Cog7.L1.temperature_hasDerivAt_r p r t]
   simp only [epv_deriv, epv_leaf] at hρ ⊢
   unfold cog7_W at hW
   unfold cog7_gamma at hW hg0 hγ hb
@@ -118,8 +118,8 @@ theorem cog7_energy_hydro (p : Cog7.P) (r t : ℝ) (hr : 0 < r) (hx : 0 < p.tau 
   have hq : 0 < Real.sqrt (p.tau ^ 2 - t ^ 2) := Real.sqrt_pos.mpr hx
   have hs : 0 < r / Real.sqrt (p.tau ^ 2 - t ^ 2) := div_pos hr hq
   unfold energyHydroT dr dt
-  rw [(Cog7.L1.temperature_hasDerivAt_t p r t hx.ne' hq.ne' hs).deriv, (Cog7.L1.velocity_hasDerivAt_r p r t).deriv,
-    (Cog7.L1.temperature_hasDerivAt_r p r t hr.ne' hs).deriv]
+  epv_hydro_rw_derivs [Cog7.L1.temperature_hasDerivAt_t p r t, Cog7.L1.velocity_hasDerivAt_r p r t,
+    Cog7.L1.temperature_hasDerivAt_r p r t]
   simp only [epv_deriv, epv_leaf]
   have hg : cog7_gamma p - 1 = 2 / ((p.geometry - 1) + 1) := by
     unfold cog7_gamma
